@@ -17,7 +17,9 @@ import TensorModel.Ext.Hooks
 
   S is NumPy's `concatenate`, `stack`, `repeat` written coordinate-wise on logical arrays
   (`laConcat`, `laStack`, `laRepeat`). Deviations of the library's documented interface from NumPy that S follows:
-  `Vstack` requires rank ≥ 2 (NumPy promotes rank-1 operands to rows); no negative axes. Outside S's domain
+  `Vstack` requires rank ≥ 2 (NumPy promotes rank-1 operands to rows); no negative axes — `-1` is the
+  constant `AllAxes`, which `Concat` / `Shape.Concat` read as the outermost axis (`specConcatAxis`) and `Repeat` as
+  "flatten first". Outside S's domain
   (no verdict): rank-0 operands, mixed element types, negative counts, the `(n)`-along-axis-1 extension
   of `Repeat` (pinned by `TestShape_Repeat`), a reuse tensor whose shape is only softly equal.
 -/
@@ -445,6 +447,8 @@ def denseConcat (st : St) (ds : Array Dense) (ids : List Nat) (axis : Int) : Res
   | a :: ts =>
     let isMasked := ts.any (·.isMasked)
     let newShape ← shapeConcat a.shape axis (ts.map (·.shape))
+    -- `if axis == AllAxes { axis = 0 }`: the copying uses the axis `Shape.Concat` computed the shape for
+    let axis : Int := if axis == -1 then 0 else axis
     let (st, ret) ← recycled st a.dt newShape
     let (st, ret) := if isMasked then
         let (st, b) := st.allocMask (Array.replicate (totalSize newShape).toNat false)
@@ -549,6 +553,18 @@ def concatShape (axis : Nat) : List Shape → Option Shape
     if axis < s.length && rest.all (fun t => t.length == s.length && t.set axis 0 == s.set axis 0) then
       some (s.set axis (sumI ((s :: rest).map (fun t => t[axis]?.getD 0))))
     else none
+
+/-- the axis argument of `Concat` / `Shape.Concat` as the library's interface reads it: the constant
+    `AllAxes` (-1) names the outermost axis (pinned by `TestShape_Concat`, "standard, axis AllAxes");
+    every other negative axis is not an axis. -/
+def specConcatAxis (axis : Int) : Option Nat :=
+  if axis == -1 then some 0 else if axis < 0 then none else some axis.toNat
+
+/-- S's verdict on the shape of a concatenation: `none` = refused -/
+def specConcatShape (axis : Int) (shapes : List Shape) : Option Shape :=
+  match specConcatAxis axis with
+  | none => none
+  | some k => concatShape k shapes
 
 /-- `numpy.concatenate(as, axis)` -/
 def laConcat {α} (axis : Nat) (as : List (LA α)) : Option (LA α) := do
@@ -774,8 +790,11 @@ def stepS (psBefore psAfter : PState) (ss : SState) (_stepIdx : Nat) (toks : Lis
     | none => finS psAfter ss none
     | some las =>
       if las.any (·.shape.isEmpty) then finS psAfter ss none          -- rank 0: outside the quantifier
+      else if kind == "concat" then
+        match specConcatAxis axis with
+        | none => finResult psBefore psAfter ss none                  -- no negative axes: refused
+        | some k => finResult psBefore psAfter ss (laConcat k las)
       else if axis < 0 then finResult psBefore psAfter ss none        -- no negative axes: refused
-      else if kind == "concat" then finResult psBefore psAfter ss (laConcat axis.toNat las)
       else finResult psBefore psAfter ss (laStack axis.toNat las)
   match toks with
   | "concat" :: _ :: axisTok :: opToks =>
@@ -841,37 +860,17 @@ def stepS (psBefore psAfter : PState) (ss : SState) (_stepIdx : Nat) (toks : Lis
     | some axis, some (a :: rest) =>
       let recv := s!"recv={showInts a.shape}>{showInts a.shape}"
       if (a :: rest).any (·.shape.isEmpty) then finS psAfter ss none
-      else if axis < 0 then finS psAfter ss (some s!"r=err {recv}")
-      else match concatShape axis.toNat ((a :: rest).map (·.shape)) with
+      else match specConcatShape axis ((a :: rest).map (·.shape)) with
         | some sh => finS psAfter ss (some s!"r=ok shape={showInts sh} {recv}")
         | none => finS psAfter ss (some s!"r=err {recv}")
     | _, _ => finS psAfter ss none
   | ["amask", _, _] => finS psAfter ss (some "r=ok")
   | _ => finS psAfter ss none
 
-/-! ### known-defect regions -/
+/-! ### known-defect regions: none left (F60–F69 are repaired; F63: `denseConcat` normalises `AllAxes` like
+    `Shape.Concat`, and S reads the constant the way the library's interface defines it) -/
 
-/-- F63: `Shape.Concat` treats `AllAxes` (-1) as axis 0 (pinned by its tests) while `denseConcat`
-    indexes `T.Shape()[axis]` with it. -/
-def Excl_concatAllAxes (axis : Int) : Bool := axis == -1
-
-def excl (ps : PState) (toks : List String) : List String × Bool :=
-  let tensors (opToks : List String) : List Dense := opToks.filterMap (fun t => (ps.obj t).map (·.2))
-  let concatTags (axis : Int) : List String := if Excl_concatAllAxes axis then ["F63"] else []
-  match toks with
-  | "concat" :: _ :: axisTok :: _ =>
-    match axisTok.toInt? with
-    | some axis => (concatTags axis, false)
-    | none => ([], false)
-  | "hstack" :: opToks =>
-    let ops := tensors opToks
-    (concatTags (if (ops.head?.map (·.dims)) == some 1 then 0 else 1), false)
-  | "vstack" :: _ => (concatTags 0, false)
-  | "calcConcat" :: axisTok :: _ =>
-    match axisTok.toInt? with
-    | some axis => (concatTags axis, false)
-    | none => ([], false)
-  | _ => ([], false)
+def excl (_ps : PState) (_toks : List String) : List String × Bool := ([], false)
 
 end Asm
 
